@@ -14,7 +14,9 @@ good sibling), and sent to a capturing resolver over every input route:
 
 plus the same field selected at several places of one operation with different arguments (aliases,
 same response key under different parents, list items, merged duplicates, different depths: all
-ordered pairs -- thorough: triples -- of argument assignments), nullable variables at non-null
+ordered pairs -- thorough: triples -- of argument assignments), one field node executed against the
+members of an interface / a union that declare the field with different defaults, an extra defaulted
+argument and different python names (both orders of runtime types), nullable variables at non-null
 positions (allowed when a default exists), a lone object literal containing a variable in a list
 position (depth 1 and 2, lone / bracketed / all-variable spellings), presence enumerations
 (provided / omitted / explicit null / through a provided, null, omitted or defaulted variable) for every argument of a 3-argument field (7^3), for the fields of an input object
@@ -47,7 +49,7 @@ RULE = (
     "placements (leaf nested 0..k+1 lists deep, beside a null, beside a valid sibling) x the base's value alphabet "
     "(natural values, 32-bit boundaries, integral/non-integral floats, numeric strings, booleans, null, one value of every "
     "other JSON kind; for the input object: 3^k presence combinations, every field x its alphabet, unknown fields, wrong kinds), "
-    "plus literal-only leaves, lone object literals containing a variable (provided / null / unset with default / unset) in list positions of depth 1 and 2 for every type x 5 spellings + the all-variable spelling, ordered pairs (thorough: triples) of argument assignments (literal / variable / unset variable / null / default per argument) for one field selected at several places of one operation (5 placements), nullable variables (null / unset / value) at every non-null-typed position that has a default, 7^3 argument-presence and 7^3 object-literal-presence combinations, per-type argument "
+    "plus literal-only leaves, one field node served by two field definitions (interface / union members with different defaults, extra defaulted argument, different python names) x 4 list fields x 4 selection styles x 6 argument spellings, lone object literals containing a variable (provided / null / unset with default / unset) in list positions of depth 1 and 2 for every type x 5 spellings + the all-variable spelling, ordered pairs (thorough: triples) of argument assignments (literal / variable / unset variable / null / default per argument) for one field selected at several places of one operation (5 placements), nullable variables (null / unset / value) at every non-null-typed position that has a default, 7^3 argument-presence and 7^3 object-literal-presence combinations, per-type argument "
     "presence with/without default, @skip/@include conditions, SDL-declared defaults; evaluation = one run of the "
     "implementation on one route compared with the reference; non-trivial = distinct (type, value, route-independent) "
     "case for which the reference accepts on some route (so the resolver must run and its kwargs are compared) or "
@@ -159,6 +161,10 @@ def cases(tier):
                 for a2 in MULTI_TRIPLE:
                     for a3 in MULTI_TRIPLE:
                         yield {"k": "multi", "shape": shape, "assign": [a1, a2, a3]}
+    for f in ("shapes", "shapesR", "ushapes", "ushapesR"):
+        for style in ABS_STYLES:
+            for args in ABS_ARGS:
+                yield {"k": "absdef", "field": f, "style": style, "args": args}
     sd = BOUNDS[tier]["sdl_default_depth"]
     for s in V.shapes(sd):
         for b in V.BASES:
@@ -322,7 +328,25 @@ def _build():
     )
     fields.append(Field("box", box, [Argument("id", Int)], resolver=lambda *a, **k: {}))
     fields.append(Field("boxes", ListType(box), resolver=lambda *a, **k: [{}, {}]))
-    schema = Schema(ObjectType("Query", fields), directives=directives)
+    # one field NODE serving several field DEFINITIONS: members of an interface / a union declare the
+    # same field with different defaults, an extra defaulted argument and different python names
+    from py_gql.schema import InterfaceType, UnionType
+
+    shape_args = [arg("unit", "E", default=10)]
+    circle_args = [arg("unit", "E", "py_unit", default=10)]
+    square_args = [arg("unit", "E", "u2", default="bee"), arg("scale", "Int", default=2)]
+    argdefs["Circle.size"] = [d for d, _ in circle_args]
+    argdefs["Square.size"] = [d for d, _ in square_args]
+    shape = InterfaceType("Shape", [Field("size", Boolean, [a for _, a in shape_args])])
+    circle = ObjectType("Circle", [Field("size", Boolean, [a for _, a in circle_args], resolver=_path_resolver)], interfaces=[shape])
+    square = ObjectType("Square", [Field("size", Boolean, [a for _, a in square_args], resolver=_path_resolver)], interfaces=[shape])
+    anyshape = UnionType("AnyShape", [circle, square])
+    cs = [{"__typename__": "Circle"}, {"__typename__": "Square"}]
+    fields.append(Field("shapes", ListType(shape), resolver=lambda *a, **k: list(cs)))
+    fields.append(Field("shapesR", ListType(shape), resolver=lambda *a, **k: list(reversed(cs))))
+    fields.append(Field("ushapes", ListType(anyshape), resolver=lambda *a, **k: list(cs)))
+    fields.append(Field("ushapesR", ListType(anyshape), resolver=lambda *a, **k: list(reversed(cs))))
+    schema = Schema(ObjectType("Query", fields), directives=directives, types=[circle, square])
     schema.validate()
     return schema, argdefs
 
@@ -1193,6 +1217,93 @@ def eval_multi(case, st=None):
 
 
 # ------------------------------------------------------------------------------------------
+# one field node executed against several concrete types (interface / union members)
+
+ABS_STYLES = ("direct", "fragment", "inline-on-interface", "typed-twice")
+ABS_ARGS = ("none", "literal", "var-value", "var-null", "var-unset", "var-unset-default")
+
+
+def eval_absdef(case, st=None):
+    from py_gql import graphql_blocking, process_graphql_query
+
+    m = _model()
+    schema, argdefs = _schema()
+    f, style, a = case["field"], case["style"], case["args"]
+    union = f.startswith("u")
+    if style == "direct" and union:
+        return []  # a union has no fields of its own
+    order = ["Square", "Circle"] if f.endswith("R") else ["Circle", "Square"]
+    vardefs, payload, given, argtxt = [], {}, {}, ""
+    if a == "literal":
+        given, argtxt = {"unit": ["enum", "B"]}, "(unit: B)"
+    elif a.startswith("var"):
+        given, argtxt = {"unit": ["var", "u"]}, "(unit: $u)"
+        vardefs = [["u", "E", ["enum", "B"] if a == "var-unset-default" else None]]
+        if a == "var-value":
+            payload = {"u": "A"}
+        elif a == "var-null":
+            payload = {"u": None}
+    frag = ""
+    if style == "direct":
+        sel = "size%s" % argtxt
+    elif style == "fragment":
+        sel, frag = "...F", " fragment F on Shape { size%s }" % argtxt
+    elif style == "inline-on-interface":
+        sel = "... on Shape { size%s }" % argtxt
+    else:  # two nodes, one per concrete type (control: here every node has one definition)
+        sel = "... on Circle { size%s } ... on Square { size%s }" % (argtxt, argtxt)
+    text = "query%s { %s { %s } }%s" % (_render_vardefs(vardefs), f, sel, frag)
+    expected = {"%s.%d.size" % (f, k): (t, _expect(vardefs, payload, argdefs[t + ".size"], given, m)) for k, t in enumerate(order)}
+    per = {}
+    for cfg in ("blocking", "default"):
+        del CAPTURE[:]
+        try:
+            res = (graphql_blocking if cfg == "blocking" else process_graphql_query)(schema, text, variables=payload)
+            resp = res.response()
+        except Exception as e:  # noqa
+            per.setdefault("crash:" + type(e).__name__, []).append((cfg, "%s: %s" % (type(e).__name__, str(e)[:200])))
+            continue
+        caps = [c for c in CAPTURE if c[0] == "at"]
+        if st is not None:
+            st.n("evaluations")
+            st.n("route:abstract-field")
+            st.outcome(("absdef", style, len(caps), bool(resp.get("errors"))))
+        probs = []
+        if resp.get("errors") or resp.get("data") is None:
+            probs.append(("request-rejected", "the request is valid: %r" % (resp,)))
+        for path, (t, adm) in expected.items():
+            got = [c[2] for c in caps if c[1] == path]
+            if not got:
+                probs.append(("missing-invocation", "%s (%s) not invoked" % (path, t)))
+                continue
+            if len(got) > 1:
+                probs.append(("invoked-twice", path))
+            if any(x is not R.REJECT and R.same(x, got[0]) for x in adm):
+                if not R.conforms_kwargs(got[0], argdefs[t + ".size"], m):
+                    raise AssertionError("reference kwargs do not conform: %r" % (got[0],))
+                continue
+            exp = [x for x in adm if x is not R.REJECT][0]
+            other = [p2 for p2, (t2, adm2) in expected.items() if t2 != t and any(x is not R.REJECT and R.same(x, got[0]) for x in adm2)]
+            if other:
+                probs.append(("kwargs-of-other-definition", "%s is a %s and received %r = the coercion against the other type's definition; its own gives %r" % (path, t, got[0], exp)))
+            else:
+                probs.append(("wrong-kwargs", "%s (%s) received %r expected %r" % (path, t, got[0], exp)))
+        for p_, d in probs:
+            per.setdefault(p_, []).append((cfg, d))
+    if st is not None:
+        st.nt(("absdef", text, json.dumps(payload, sort_keys=True)))
+    out = []
+    for p_ in sorted(per):
+        cfgs = []
+        for c, _ in per[p_]:
+            if c not in cfgs:
+                cfgs.append(c)
+        suffix = "" if len(cfgs) == 2 else "@" + cfgs[0]
+        out.append(("abstract-field/%s/%s%s" % (style, p_, suffix), "%s variables=%s: %s" % (text, json.dumps(payload), per[p_][0][1])))
+    return out
+
+
+# ------------------------------------------------------------------------------------------
 # defaults declared in SDL
 
 SDL_TYPES = """
@@ -1317,6 +1428,8 @@ def evaluate(case, st=None):
         return eval_sdl(case, st)
     if k == "multi":
         return eval_multi(case, st)
+    if k == "absdef":
+        return eval_absdef(case, st)
     raise ValueError(k)
 
 
